@@ -23,6 +23,7 @@ def _knobs(rng, *, conc=True):
         "locale": rng.choice([None, None, None, None, None, "de_DE"]),
         "mtime_granularity": rng.choice([None, None, 1.0, 2.0]),
         "clock_slow": rng.random() < 0.4,
+        "symlink": rng.random() < 0.1,
     }
 
 
